@@ -144,6 +144,8 @@ class SearchInfoMonitor:
                     self._v(where, "traversal-does-not-end", {"visited": guard})
                     return
         except Exception as e:
+            if not done and not items:
+                return      # no completed trial yet: the statement speaks of the record after >= 1 iterations (an empty SearchData cannot be iterated)
             self._v(where, "traversal-raised", {"exc": repr(e)})
             return
         if not items:
